@@ -132,6 +132,14 @@ def to_rat(e, leaf, strip, depth=0):
         raise NotArithmetic('operator %s' % op)
     if k == 'unop' and e[1] == 'Neg':
         return -to_rat(e[2], leaf, strip, depth + 1)
+    if k == 'call' and len(e[2]) == 2:
+        import re
+        m = re.search(r'core::ops::(?:arith::)?(Mul|Add|Sub|Div)(?:<[^>]*>)?>::(mul|add|sub|div)$', e[1])
+        if m and e[1].startswith('<f64 as') or m and e[1].startswith('<&f64 as'):
+            a = to_rat(e[2][0], leaf, strip, depth + 1)
+            b = to_rat(e[2][1], leaf, strip, depth + 1)
+            op = m.group(1)
+            return a + b if op == 'Add' else a - b if op == 'Sub' else a * b if op == 'Mul' else a / b
     if k == 'call' and e[1].endswith('tools::do_divition'):
         return to_rat(e[2][0], leaf, strip, depth + 1) / to_rat(e[2][1], leaf, strip, depth + 1)
     raise NotArithmetic('node %s' % k)
